@@ -1597,8 +1597,8 @@ fn req(mut s: Sub, cfg: &Config, dim: usize, apis: &[Api], extra: &[Api]) -> Sub
 // the point lies outside the box by 10^k for every k the type can hold, subnormal offsets included,
 // along one axis (off a face) or several (off an edge / corner), the box anchored at the origin or far
 // from it.  `distance_to_point` must come back finite, non-negative and equal to the distance to the
-// nearest box point within 64 eps relative + 4*sqrt(MIN_POSITIVE) absolute (squares below the smallest
-// normal number are lost: that is the type, not a defect).  Offsets whose square overflows are outside
+// nearest box point within 64 eps relative + 4*sqrt(smallest subnormal) absolute (squares below the smallest
+// normal number are rounded to subnormals: that is the type, not a defect).  Offsets whose square overflows are outside
 // the working range and are not generated.
 macro_rules! distance_range_case {
     ($sub:expr, $cfg:expr, $idx:expr, $F:ty, $tname:expr, $kmin:expr, $kmax:expr) => {{
@@ -1619,11 +1619,18 @@ macro_rules! distance_range_case {
         }
         let mut axes: Vec<usize> = (0..d).collect();
         rng.shuffle(&mut axes);
+        // (added after seeded change C13_P) a third of the multi-axis cases are exact ties: the same offset
+        // along every chosen axis -- the point on the diagonal through a corner / an edge, which is what
+        // grid-aligned and symmetric data looks like and what independent random offsets never produce
+        let tie = naxes >= 2 && rng.below(3) == 0;
+        let tie_mant = 1.0 + rng.below(8) as f64 / 8.0;
+        let tie_up = rng.bool();
         for &ax in axes.iter().take(naxes) {
-            let mant = 1.0 + rng.below(8) as f64 / 8.0;
+            let mant = if tie { tie_mant } else { 1.0 + rng.below(8) as f64 / 8.0 };
             let e = (mant * 10f64.powi(k)) as $F;
             // the point as the type holds it; the offset the oracle uses is the one that survived the addition
-            let q = if rng.bool() { hi[ax] + e } else { lo[ax] - e };
+            let up = if tie { tie_up } else { rng.bool() };
+            let q = if up { hi[ax] + e } else { lo[ax] - e };
             p[ax] = q;
             off[ax] = if q > hi[ax] { q as f64 - hi[ax] as f64 } else if q < lo[ax] { lo[ax] as f64 - q as f64 } else { 0.0 };
         }
@@ -1638,7 +1645,12 @@ macro_rules! distance_range_case {
         };
         $sub.saw(api);
         let ctx = format!("box min {:?} max {:?}, point {:?} (outside by {:?})", &lo[..d], &hi[..d], &p[..d], &off[..d]);
-        let tol = 64.0 * <$F>::EPSILON as f64 * truth + 4.0 * (<$F>::MIN_POSITIVE as f64).sqrt();
+        // absolute part: each square below the smallest normal number is rounded to a multiple of the smallest
+        // subnormal d (error <= d/2 each), and |sqrt(a) - sqrt(b)| <= sqrt(|a - b|): the sum of squares as the
+        // type holds it puts the root off by at most sqrt(3 d / 2); 4*sqrt(d) leaves a factor 3 of room.
+        // (It was 4*sqrt(MIN_POSITIVE) until seeded change C13_P showed that this hid a 29 % error for
+        // every offset below 7e-20 in f32.)
+        let tol = 64.0 * <$F>::EPSILON as f64 * truth + 4.0 * (<$F>::from_bits(1) as f64).sqrt();
         let mut h = H64::new();
         h.s($tname).u(d as u64);
         for x in lo.iter().chain(hi.iter()).chain(p.iter()) {
@@ -1669,7 +1681,7 @@ macro_rules! distance_range_case {
 fn sub_distance_range(cfg: &Config, n: u64) -> Sub {
     let proto = Sub::new(
         "distance_float_range",
-        "f32 and f64 boxes (2-D / 3-D, degenerate or not, at the origin or away from it) and a point outside by m*10^k along 1..D axes, k over the whole range whose squares do not overflow (f32: -45..18, f64: -323..150; subnormal offsets included): distance_to_point is finite, >= 0 and the distance to the nearest box point within 64 eps relative + 4*sqrt(MIN_POSITIVE) absolute; non-trivial = the point really lies outside; distinct by hash of all coordinates",
+        "f32 and f64 boxes (2-D / 3-D, degenerate or not, at the origin or away from it) and a point outside by m*10^k along 1..D axes, k over the whole range whose squares do not overflow (f32: -45..18, f64: -323..150; subnormal offsets included): distance_to_point is finite, >= 0 and the distance to the nearest box point within 64 eps relative + 4*sqrt(smallest subnormal) absolute; a third of the multi-axis cases are exact ties (the same offset along every chosen axis); non-trivial = the point really lies outside; distinct by hash of all coordinates",
     )
     .with_floor(n / 4)
     .require(&["Aabr::distance_to_point", "Aabb::distance_to_point"]);
